@@ -16,6 +16,7 @@ import (
 // scripted connection double: the i-th Write succeeds iff script[i] (exhausted script = failure)
 type vScriptConn struct {
 	id      int
+	kinds   []byte // per write: '1' success, '0' failure, 'p' failure after a partial write, 'c' failure "use of closed network connection"
 	script  []bool
 	pos     int
 	log     *[]string
@@ -35,6 +36,20 @@ func (c *vScriptConn) Write(b []byte) (int, error) {
 		return len(b), nil
 	}
 	*c.log = append(*c.log, fmt.Sprintf("c%d:0", c.id))
+	kind := byte('0')
+	if c.pos-1 < len(c.kinds) {
+		kind = c.kinds[c.pos-1]
+	}
+	switch kind {
+	case 'p':
+		// the peer took part of the message before the connection broke
+		n := len(b) / 3
+		c.written = append(c.written, append([]byte(nil), b[:n]...))
+		return n, fmt.Errorf("scripted write failure after %d bytes", n)
+	case 'c':
+		// the connection was closed on this side (e.g. by the goroutine that reads from it)
+		return 0, &net.OpError{Op: "write", Net: "tcp", Err: net.ErrClosed}
+	}
 	return 0, fmt.Errorf("scripted write failure")
 }
 func (c *vScriptConn) Read(b []byte) (int, error)         { return 0, fmt.Errorf("not readable") }
@@ -51,6 +66,7 @@ func parseScript(s string, id int, log *[]string) *vScriptConn {
 	sc := &vScriptConn{id: id, log: log}
 	for _, ch := range bits {
 		sc.script = append(sc.script, ch == '1')
+		sc.kinds = append(sc.kinds, byte(ch))
 	}
 	return sc
 }
